@@ -4,6 +4,7 @@ import (
 	"bytes"
 	"fmt"
 	"strconv"
+	"strings"
 	"testing"
 	"unicode/utf8"
 
@@ -101,6 +102,21 @@ func GenRawLike(methodGen func(t *rapid.T) string, statusText func(t *rapid.T, l
 		m.Method = methodGen(t)
 		GenStatus(t, &m, 600, statusText)
 		m.Meta = Meta(t, "meta", 6, 300)
+		// boundaries of the 2-byte length fields (status, metadata): encoded length
+		// just below / at 32767, 32768 and 65535 - all within the documented limit
+		switch rapid.IntRange(0, 24).Draw(t, "bigfield") {
+		case 23:
+			target := rapid.SampledFrom([]int{32767, 32768, 40000, 65535}).Draw(t, "bigstatus")
+			m.HasStatus, m.HasCause, m.Cause = true, false, ""
+			if m.Code == 0 {
+				m.Code = 7
+			}
+			overhead := len("code=&msg=") + len(strconv.Itoa(int(m.Code)))
+			m.StatMsg = strings.Repeat("s", target-overhead)
+		case 24:
+			target := rapid.SampledFrom([]int{32767, 32768, 40000, 65535}).Draw(t, "bigmeta")
+			m.Meta = []KV{{K: "k", V: strings.Repeat("v", target-2)}}
+		}
 		if rapid.IntRange(0, 3).Draw(t, "codecclass") == 0 {
 			m.Codec = rapid.Byte().Draw(t, "codec")
 		} else {
